@@ -118,6 +118,25 @@ def check(ctx):
     # the per-kind setters (each kind has its own copy of the set-SSID / set-channel code): every sequence of up to three
     from checks import c03
     fw.run_suite(ctx, exe, "S-tg/setters-per-kind", c03.setter_lines(), "setter / remove sequence on a generated frame")
+    fw.run_suite(ctx, exe, "S-tg/look-alike-contents", c03.lookalike_lines(), "setters on lists whose bodies look like the element searched for")
+    # the data argument aliasing the list itself: copies of existing elements appended with the body pointer taken from the
+    # list's own buffer (op tgd, pseudo-operation d:<num>), between ordinary edits, on small and growing lists
+    dl = []
+    for _ in range(300 if ctx.tier == "quick" else 3000):
+        ops = []
+        for _ in range(rnd.choice([2, 4, 8, 16])):
+            r = rnd.random()
+            n = rnd.choice(NUMS + [48, 221])
+            if r < 0.4:
+                ops.append("a:%d:%s" % (n, frames.tag_body(rnd, rnd.choice([1, 2, 16, 100, 255])).hex()))
+            elif r < 0.75:
+                ops.append("d:%d" % n)
+            elif r < 0.85:
+                ops.append("r:%d" % n)
+            else:
+                ops.append(rnd.choice(["s:4142", "c:7", "k:%d" % n]))
+        dl.append("tgd " + ",".join(ops))
+    fw.run_suite(ctx, exe, "S-tg/aliased-data", dl, "tag edit history whose added data lies inside the list's own buffer")
     fw.run_suite(ctx, exe, "S-tg/beyond-64KiB", [long_history(rnd, t) for t in ((66000, 70000, 131500) if ctx.tier == "quick" else (66000, 66000, 70000, 70000, 131500, 140000, 263000))],
                  "tag edit history on a list longer than 64 KiB")
     # the same relation when an allocation is refused in the middle of a history: a call that reports failure leaves the
@@ -140,7 +159,7 @@ def replay(rp):
     import diffrun
     if rp.get("kind") != "line":
         return False, "replay names a broken obligation, not an input: %s" % rp.get("broken")
-    if rp["line"].startswith(("tgl ", "gen ")):
+    if rp["line"].startswith(("tgl ", "tgd ", "gen ")):
         return fw.replay_line(rp)
     exe, err = diffrun.build_harness("asan")
     co, cr = diffrun.run_harness_all(exe, [rp["line"]])
